@@ -216,7 +216,8 @@ def residual_check(rec, rng, viols, info):
     xu = np.where(np.isfinite(pb.bounds.xu), pb.bounds.xu, xl + 3.0)
     for _ in range(4):
         x = xl + rng.random(pb.n) * (xu - xl)
-        xf = pb.build_x(x)
+        from vlib import oracles as _orc
+        xf = _orc.user_of(rec, pb, x)
         ub_int = np.sort(pb.linear.a_ub @ x - pb.linear.b_ub)
         eq_int = np.sort(np.abs(pb.linear.a_eq @ x - pb.linear.b_eq))
         ub_usr, eq_usr, mags = [], [], []
